@@ -23,10 +23,11 @@ Definition var_two_pass (ddof : Z) (l : list Q) : Q :=
 Definition var_one_pass (ddof : Z) (l : list Q) : Q :=
   (qsum (map qsq l) - qsq (qsum l) / qlen l) / (qlen l - inject_Z ddof).
 
-(* what the two functions say in the source (regenerated: Gen/TablesGen.gen_moment_formulas) *)
+(* what the two functions say in the source (regenerated: Gen/TablesGen.gen_mean_formula, gen_nanops_moments) *)
 Open Scope string_scope.
-Definition moment_formulas : list (string * list string) :=
-  [("mean_from_sum_count", ["if sum_.dtype.kind in 'mM'"; "mean = sum_.astype('int64') // count.where(count > 0, 1)"; "return mean.astype(sum_.dtype).where(count > 0)"; "else"; "return sum_ / count"; "end"]);
-   ("nanmean", ["arr = np.asarray(arr)"; "if arr.dtype.kind in 'iu'"; "arr = arr.astype(np.float64)"; "end"; "sum = nansum(**locals())"; "n = count(arr, axis=axis)"; "if n == 0"; "return _null_value_for_numpy_type(arr.dtype)"; "end"; "return sum / n"]);
+Definition mean_formula : list (string * list string) :=
+  [("mean_from_sum_count", ["if sum_.dtype.kind in 'mM'"; "mean = sum_.astype('int64') // count.where(count > 0, 1)"; "return mean.astype(sum_.dtype).where(count > 0)"; "else"; "return sum_ / count"; "end"])].
+Definition nanops_moments : list (string * list string) :=
+  [("nanmean", ["arr = np.asarray(arr)"; "if arr.dtype.kind in 'iu'"; "arr = arr.astype(np.float64)"; "end"; "sum = nansum(**locals())"; "n = count(arr, axis=axis)"; "if n == 0"; "return _null_value_for_numpy_type(arr.dtype)"; "end"; "return sum / n"]);
    ("nanvar", ["arr = np.asarray(arr)"; "if arr.dtype.kind in 'iu'"; "arr = arr.astype(np.float64)"; "end"; "kwargs = locals().copy()"; "del kwargs['ddof']"; "n = count(arr, axis=axis)"; "sum = reduce(reduce_func_name='sum', **kwargs)"; "d = n - ddof"; "if arr.ndim == 1"; "if d == 0 or n == 0"; "return np.nan"; "end"; "kwargs['arr'] = arr - sum / n"; "return reduce(reduce_func_name='sum_square', **kwargs) / d"; "end"; "sum_sq = reduce(reduce_func_name='sum_square', **kwargs)"; "if d == 0 or n == 0"; "return np.nan"; "end"; "return (sum_sq - sum ** 2 / n) / d"]);
    ("nanstd", ["return nanvar(**locals()) ** 0.5"])].
